@@ -526,13 +526,19 @@ def check_common(res, prop_prefix=""):
 def sample_positions(trace, cap, rng, per_site=3):
     """Positions of a dry-run trace to sweep: every distinct (code,line) site
     up to ``per_site`` visits; then capped by seeded sampling."""
-    seen = {}
-    pos = []
+    # per site: the first ceil(per_site/2) visits and the last floor(per_site/2) visits
+    # (in nested callback chains the last visits belong to the outermost / final future)
+    visits = {}
     for i, site in enumerate(trace):
-        c = seen.get(site, 0)
-        if c < per_site:
-            pos.append(i)
-        seen[site] = c + 1
+        visits.setdefault(site, []).append(i)
+    pos = set()
+    nf = (per_site + 1) // 2
+    nl = per_site // 2
+    for site, idx in visits.items():
+        pos.update(idx[:nf])
+        if nl:
+            pos.update(idx[-nl:])
+    pos = sorted(pos)
     if cap is not None and len(pos) > cap:
         pos = sorted(rng.sample(pos, cap))
     return pos
